@@ -19,7 +19,6 @@ import (
 // A literal that cannot be found is emitted as the empty string (the theorems then fail to compile:
 // a broken proof obligation, which is the intended outcome).
 
-
 func strLit(e ast.Expr) (string, bool) {
 	if bl, ok := e.(*ast.BasicLit); ok && bl.Kind == token.STRING {
 		v, err := strconv.Unquote(bl.Value)
@@ -97,33 +96,35 @@ func serverBearerFacts(fn string) (prefix, accessor string) {
 	if fd == nil || fd.Body == nil {
 		return "", ""
 	}
-	ast.Inspect(fd.Body, func(n ast.Node) bool {
-		switch x := n.(type) {
-		case *ast.GenDecl:
-			if x.Tok == token.CONST {
-				for _, s := range x.Specs {
-					vs := s.(*ast.ValueSpec)
-					for i, nm := range vs.Names {
-						if nm.Name == "prefix" && i < len(vs.Values) {
-							if v, ok := strLit(vs.Values[i]); ok {
-								prefix = v
+	for _, body := range reachBodies("security/authenticator.go", fd) {
+		ast.Inspect(body, func(n ast.Node) bool {
+			switch x := n.(type) {
+			case *ast.GenDecl:
+				if x.Tok == token.CONST {
+					for _, s := range x.Specs {
+						vs := s.(*ast.ValueSpec)
+						for i, nm := range vs.Names {
+							if nm.Name == "prefix" && i < len(vs.Values) {
+								if v, ok := strLit(vs.Values[i]); ok {
+									prefix = v
+								}
 							}
 						}
 					}
 				}
-			}
-		case *ast.CallExpr:
-			if se, ok := x.Fun.(*ast.SelectorExpr); ok && len(x.Args) == 1 {
-				if id, ok := x.Args[0].(*ast.Ident); ok && id.Name == "accessTokenParam" {
-					// qs.Get(accessTokenParam) is the query lookup; the other one reads the body
-					if se.Sel.Name != "Get" {
-						accessor = se.Sel.Name
+			case *ast.CallExpr:
+				if se, ok := x.Fun.(*ast.SelectorExpr); ok && len(x.Args) == 1 {
+					if id, ok := x.Args[0].(*ast.Ident); ok && id.Name == "accessTokenParam" {
+						// qs.Get(accessTokenParam) is the query lookup; the other one reads the body
+						if se.Sel.Name != "Get" {
+							accessor = se.Sel.Name
+						}
 					}
 				}
 			}
-		}
-		return true
-	})
+			return true
+		})
+	}
 	return
 }
 
